@@ -40,6 +40,8 @@ TopCalls ==
          C("NotifyNAS_IP4_ADDRESS", FALSE, [ip |-> << 0, 0, 0, 0 >>]),
          C("NotifyUP_IP4_ADDRESS", TRUE, [ip |-> << 192, 168, 127, 1 >>]), C("NotifyUP_IP4_ADDRESS", FALSE, [ip |-> << 1, 2, 3, 4 >>]),
          C("NotifyNAS_TCP_PORT", TRUE, [port |-> 20000]), C("NotifyNAS_TCP_PORT", FALSE, [port |-> 1]), C("NotifyNAS_TCP_PORT", FALSE, [port |-> 65535]) }
+  \cup { C("EAPExpanded", v = 10415, [code |-> 1 + (v % 2), id |-> v % 256, vid |-> v, vtype |-> vt, data |-> D(v % 7, 28)]) :
+           v \in {0, 10415, 65535, 65536, 123456, 16777215}, vt \in { << 0, 0, 0, 3 >>, << 255, 255, 255, 255 >> } }
   \cup { C("KeyExchange", FALSE, [grp |-> 2, data |-> D(n, 21)]) : n \in BigN }
   \cup { C("Encrypted", FALSE, [next |-> nx, data |-> D(32, 22)]) : nx \in {0, 33} }
   \cup { C("Notify5G_QOS_INFO", n = 2 /\ dscpi, [pdu |-> IF dcsi THEN 255 ELSE 5, qfis |-> [i \in 1..n |-> (i * 3) % 64], dcsi |-> dcsi, dscpi |-> dscpi, dscp |-> IF dcsi THEN 46 ELSE 255]) :
@@ -84,12 +86,33 @@ SweepPrograms ==
   \cup { << C(f, TRUE, [x |-> 0]), C("IndividualTrafficSelector", FALSE, IF six THEN Sel6(pr, sp, ep, 43) ELSE Sel4(pr, sp, ep, 44)) >> :
             f \in {"TrafficSelectorInitiator", "TrafficSelectorResponder"}, six \in BOOLEAN, pr \in {0, 255}, sp \in {0, 65535}, ep \in {0, 1, 65535} }
 
+\* the Reset of each sub-container in the middle of building its payload (fixed programs: in the free exploration they multiply the
+\* programs a hundredfold), with a payload in front that must stay as it is
+SR(l, k) == C("SubReset", FALSE, [lvl |-> l, c |-> k])
+ResetPrograms ==
+  LET N0 == C("Nonce", TRUE, [data |-> D(16, 14)])
+      P1 == C("Proposal", FALSE, [num |-> 1, proto |-> 1, spi |-> << >>])
+      P2 == C("Proposal", FALSE, [num |-> 2, proto |-> 3, spi |-> D(4, 26)])
+      CA1(a, n) == C("ConfigurationAttribute", FALSE, [t |-> a, v |-> D(n, 23)]) IN
+  { << N0, C("Configuration", TRUE, [cft |-> 1]), CA1(1, 4), CA1(32767, 0), SR("attrs", 0), CA1(8, 16) >>,
+    << N0, C("Configuration", TRUE, [cft |-> 2]), CA1(1, 4), SR("attrs", 0), CA1(1, 4), CA1(2, 4) >>,
+    << N0, C("TrafficSelectorInitiator", TRUE, [x |-> 0]), C("IndividualTrafficSelector", FALSE, Sel4(6, 256, 1, 24)), SR("sel", 0),
+       C("IndividualTrafficSelector", FALSE, Sel6(255, 65535, 0, 25)) >>,
+    << N0, C("TrafficSelectorResponder", TRUE, [x |-> 0]), C("IndividualTrafficSelector", FALSE, Sel6(17, 1, 2, 25)),
+       C("IndividualTrafficSelector", FALSE, Sel4(6, 256, 1, 24)), SR("sel", 0), C("IndividualTrafficSelector", FALSE, Sel4(0, 0, 65535, 24)) >>,
+    << N0, C("SecurityAssociation", TRUE, [x |-> 0]), P1, C("Transform", FALSE, TrTV(1, 12, 14, 256)), SR("props", 0), P2, C("Transform", FALSE, TrTV(1, 12, 14, 128)) >>,
+    << N0, C("SecurityAssociation", TRUE, [x |-> 0]), P1, C("Transform", FALSE, TrTV(1, 12, 14, 256)), C("Transform", FALSE, TrNone(3, 12)), SR("tr", 1),
+       C("Transform", FALSE, TrTV(1, 12, 14, 192)) >>,
+    << N0, C("SecurityAssociation", TRUE, [x |-> 0]), P1, C("Transform", FALSE, TrTV(1, 12, 14, 256)), C("Transform", FALSE, TrNone(3, 12)), SR("tr", 3),
+       C("Transform", FALSE, TrNone(3, 2)), C("Transform", FALSE, TrNone(2, 5)), SR("tr", 2), C("Transform", FALSE, TrNone(2, 2)),
+       C("Transform", FALSE, TrNone(4, 14)), SR("tr", 4), C("Transform", FALSE, TrNone(4, 2)), C("Transform", FALSE, TrNone(5, 1)), SR("tr", 5), C("Transform", FALSE, TrNone(5, 0)) >> }
+
 \* every repeatable builder called, the payload it made edited by the caller, and the builder called again with the same arguments:
 \* the second payload is what the arguments say (no object or storage shared between the payloads of two calls)
 EditPrograms == { << c, C("Edit", TRUE, [x |-> 0]), c >> : c \in { d \in TopCalls : d.rep } }
 
 Init == \/ cont = << >> /\ calls = << >> /\ failed = FALSE
-        \/ calls \in SweepPrograms \cup EditPrograms /\ cont = Final(<< >>, calls) /\ failed = TRUE
+        \/ calls \in SweepPrograms \cup EditPrograms \cup ResetPrograms /\ cont = Final(<< >>, calls) /\ failed = TRUE
         \/ calls \in { << C("HeaderSweep", TRUE, [x |-> k]) >> : k \in 1..NHeaderSweeps } /\ cont = << >> /\ failed = TRUE
 Build(c) == /\ CallEnabled(cont, c)
             /\ cont' = ApplyCall(cont, c).cont
